@@ -48,3 +48,11 @@ Example C07_example :
   packet_at [16; 32; 2; 7] 0 = Err insufficient /\
   wf_packet [16; 32; 2; 7; 8] /\ length (new_packet 255 8208) = 258%nat.
 Proof. unfold wf_packet. repeat split; vm_compute; try reflexivity; lia. Qed.
+
+(* The model IS the code: MTData2.PacketAt as REGENERATED statement by statement from mtdata2.go on this run agrees
+   with the model on every payload and every index (slices as lists: capacity = length; the harness covers spare
+   capacity) *)
+Require Import Base.GoBytes Gen.Bytes Tie.BytesAgree.
+Theorem C07_packet_at_model_is_the_source : forall m i, g_packet (g_MTData2_PacketAt m (Z.of_nat i)) = packet_at m i.
+Proof. exact packet_at_agrees. Qed.
+Print Assumptions C07_packet_at_model_is_the_source.
